@@ -39,6 +39,9 @@ def run_property(prop, tier, root=None, write=True, quiet=False, model=None):
     try:
         mod = importlib.import_module(f'sa.rules.{modname}')
         explanation = mod.run(model, R) or mod.__doc__.strip()
+        if getattr(mod, 'GENERIC', True):
+            from . import generic
+            generic.run(model, R)
         if tier == 'thorough' and hasattr(mod, 'thorough'):
             mod.thorough(model, R)
     except Unrecognised as e:
